@@ -11,8 +11,8 @@ import (
 // ---------------------------------------------------------------------------------------------
 // C07: soundness of the proof verifiers.
 //
-// Setting: an HONEST tree over n symbolic 32-byte leaves (n enumerated); its root is the RFC 6962
-// Merkle Tree Hash computed by the oracle below. The ADVERSARY controls everything else that reaches a
+// Setting: an HONEST tree over n 32-byte leaves (n enumerated; leaves symbolic for n <= SYM, see
+// zz7Leaves); its root is the RFC 6962 Merkle Tree Hash computed by the oracle below. The ADVERSARY controls everything else that reaches a
 // verifier: claimed leaf / leaf hash, index, every proof hash, every position flag, old size, old root
 // (all symbolic; only lengths are enumerated). Every assertion has the form
 //        verifier accepts  =>  the claim is true about the honest tree
@@ -116,10 +116,23 @@ func zz7Depth(n int) int { // ceil(log2 n)
 	return d
 }
 
+// zz7Leaves: the honest leaves. Trees of up to SYM leaves have fully symbolic leaves (the statement is
+// then proved for every honest tree of that size). Larger trees use fixed, pairwise different leaves:
+// the verifiers never see the leaves, only the root, so this exercises their index/size arithmetic on
+// deeper shapes against ALL adversarial inputs at a cost the solver can afford (every honest node hash
+// is then a constant, and one collision-resistance step pins a proof element to a constant).
 func zz7Leaves(n int) [][]byte {
+	sym := n <= zzsym.Param("SYM")
 	out := make([][]byte, n)
 	for i := range out {
-		out[i] = zzsym.Bytes("leaf", 32)
+		if sym {
+			out[i] = zzsym.Bytes("leaf", 32)
+			continue
+		}
+		out[i] = make([]byte, 32)
+		for j := range out[i] {
+			out[i][j] = byte(37*i + 11*j + 5)
+		}
 	}
 	return out
 }
